@@ -65,8 +65,7 @@ func (te *Extractor) Extract(reader io.Reader) error {
 	te.deferredUpdates = make([]deferredUpdate, 0, 80)
 	doUpdates := func() error {
 		for i := len(te.deferredUpdates) - 1; i >= 0; i-- {
-			m := te.deferredUpdates[i]
-			err := files.UpdateMetaUnix(m.path, uint32(m.mode), m.mtime)
+			err := te.deferredUpdates[i].apply()
 			if err != nil {
 				return err
 			}
@@ -406,6 +405,17 @@ type deferredUpdate struct {
 	mtime time.Time
 }
 
+// apply sets the recorded mode and mtime unless a later entry replaced the
+// directory by something else (os.Chmod would follow a symlink put there).
+func (m deferredUpdate) apply() error {
+	if fi, err := os.Lstat(m.path); err != nil {
+		return err
+	} else if !fi.IsDir() {
+		return nil
+	}
+	return files.UpdateMetaUnix(m.path, uint32(m.mode), m.mtime)
+}
+
 func (te *Extractor) deferUpdate(path string, header *tar.Header) error {
 	if header.Mode == 0 && header.ModTime.IsZero() {
 		return nil
@@ -425,8 +435,7 @@ func (te *Extractor) deferUpdate(path string, header *tar.Header) error {
 		// if possible, apply the previous deferral.
 		m := te.deferredUpdates[n-1]
 		if strings.HasPrefix(m.path, prefix()) {
-			err := files.UpdateMetaUnix(m.path, uint32(m.mode), m.mtime)
-			if err != nil {
+			if err := m.apply(); err != nil {
 				return err
 			}
 			te.deferredUpdates = te.deferredUpdates[:n-1]
